@@ -158,7 +158,7 @@ RUN_ASSUME = [
 ]
 
 PROPS = {
-    "C01": {"engine": "run", "modelled": RUN_MODELLED + RUN_BINARY, "assumptions": RUN_ASSUME},
+    "C01": {"engine": "run", "modelled": RUN_MODELLED + RUN_BINARY, "assumptions": RUN_ASSUME, "extra_props": ["C01Sha"]},
     "C02": {"engine": "run", "modelled": RUN_MODELLED, "assumptions": RUN_ASSUME},
     "C10": {"engine": "run", "modelled": RUN_MODELLED + RUN_BINARY, "assumptions": RUN_ASSUME},
     "C14": {"engine": "run", "modelled": RUN_MODELLED, "assumptions": RUN_ASSUME},
